@@ -330,8 +330,16 @@ Fixpoint c06_find_entry (p q : nat) (es : list c06_entry) : option c06_entry :=
   end.
 
 (* what the recording handle of rank p gathers for local index i when it reports n items there:
-   distinct tagged items (rank, index, k) coded as ((p*ni + i)*w + k) *)
-Definition c06_gather (ni w p i n : nat) : list nat := map (fun k => (p * ni + i) * w + k) (seq 0 n).
+   tagged items (rank, index, k) coded as ((p*ni + i)*w + k mod w) *)
+Fixpoint c06_gather_from (base w cur n : nat) : list nat :=
+  match n with
+  | 0 => []
+  | S n' => (base + cur) :: c06_gather_from base w (if S cur =? w then 0 else S cur) n'
+  end.
+(* item k of the entry is coded base + (k mod w): for entries of at most w items this is the injective coding
+   (p*ni+i)*w + k; longer entries (the cases with an index larger than the default buffer) repeat with period w, which
+   keeps the numbers small -- the driver renders item k of a call by its position *)
+Definition c06_gather (ni w p i n : nat) : list nat := c06_gather_from ((p * ni + i) * w) w 0 n.
 
 Definition c06_size_of (sizes : list (list nat)) (p i : nat) : nat := nth i (nth p sizes []) 0.
 
